@@ -275,7 +275,15 @@ def install():
     E['numpy.logical_and'] = lambda i, a, k: lib.elementwise2(i, lambda x, y: ops.land(ops.truthy(x), ops.truthy(y)), a[0], a[1])
     E['numpy.logical_or'] = lambda i, a, k: lib.elementwise2(i, lambda x, y: ops.lor(ops.truthy(x), ops.truthy(y)), a[0], a[1])
     E['numpy.greater'] = lambda i, a, k: lib.elementwise2(i, lambda x, y: ops.compare('>', x, y), a[0], a[1])
-    E['numpy.divide'] = lambda i, a, k: lib.elementwise2(i, np_div, a[0], a[1])
+    def _divide(i, a, k):
+        q = lib.elementwise2(i, np_div, a[0], a[1])
+        if 'where' in k:
+            out = k.get('out')
+            if out is None:
+                raise OutOfSubset('np.divide(where=...) without out')
+            return lib._where3(i, k['where'], q, out)
+        return q
+    E['numpy.divide'] = _divide
     E['numpy.multiply'] = lambda i, a, k: lib.elementwise2(i, lambda x, y: ops.arith('*', x, y), a[0], a[1])
     E['numpy.subtract'] = lambda i, a, k: lib.elementwise2(i, lambda x, y: ops.arith('-', x, y), a[0], a[1])
     E['numpy.add'] = lambda i, a, k: lib.elementwise2(i, lambda x, y: ops.arith('+', x, y), a[0], a[1])
